@@ -1,7 +1,7 @@
 (* Command interpreter shared by the extracted binary and by in-Coq evaluation:
    one s-expression command per line in, one s-expression answer out. *)
 From Coq Require Import String Ascii List ZArith NArith Bool.
-From OL Require Import Sexp PyAst Unparse Config.
+From OL Require Import Sexp PyAst Unparse Config Namespace Lower.
 Import ListNotations.
 Open Scope string_scope.
 
@@ -19,6 +19,17 @@ Definition run_cmd (x : sexp) : sexp :=
       match expr_of e with Some e' => ok (sx_expr e') | None => bad "decode-expr" end
   | L [A "echo-block"; b] =>
       match block_of b with Some _ => ok (A "block") | None => bad "decode-block" end
+  | L [A "lower"; L [ch; sh; lt]; st; b] =>
+      match bool_of ch, bool_of sh, bool_of lt, symtab_of st, block_of b with
+      | Some ch', Some sh', Some lt', Some st', Some b' =>
+          match lower_module (mkCfg ch' sh' lt') st' b' with
+          | inl e => ok (sx_expr e)
+          | inr er => L [A "err"; A (err_name er)]
+          end
+      | _, _, _, None, _ => bad "decode-symtab"
+      | _, _, _, _, None => bad "decode-block"
+      | _, _, _, _, _ => bad "decode-config"
+      end
   | L [A "cfg-hist"; L acts] =>
       match mapM action_of acts with
       | Some h => ok (L [L (map sx_output (run [] h)); L (map sx_output (run_shared (0, []) h))])
